@@ -31,8 +31,8 @@ REJECT_CLASSES = ["gap_first", "gap_middle", "gap_before_last_line", "overlap", 
 
 def plan(tier, seed):
     q = tier == "quick"
-    jobs = [{"name": "imp%02d" % i, "spec": {"kind": "import", "n": 600 if q else 5000, "i": i}} for i in range(NSH)]
-    jobs += [{"name": "mem%02d" % i, "spec": {"kind": "mem", "n": 600 if q else 8000}} for i in range(4)]
+    jobs = [{"name": "imp%02d" % i, "spec": {"kind": "import", "n": 600 if q else 20000, "i": i}} for i in range(NSH)]
+    jobs += [{"name": "mem%02d" % i, "spec": {"kind": "mem", "n": 600 if q else 40000}} for i in range(4)]
     return jobs
 
 
